@@ -297,3 +297,5 @@ Definition go_type (w : wt) : string :=
   | U8 => "bits" | U16 => "wuint16" | U32 => "wuint32" | WBool => "wbool"
   | Bin => "bindata" | Raw => "rawdata" | Vb => "vbint"
   end.
+
+Definition prog_width (w : wt) : list ws := prog (go_type w ++ ".width").
